@@ -26,6 +26,9 @@ COMMON_ASSUMPTIONS = [
     "the reference models in /verif/sim/plonksim/src (rm_*.rs) are the trusted base.",
 ]
 
+C19_RULE = "one evaluation = one kernel call compared with the same call under the canonical environment (schedule independence: pool size T from the menu incl. both sides of the >=4-thread switch, seeded schedule), or one sampled output index compared with the mathematical definition computed by Horner evaluation in the harness (fft(a)[i] = sum_j a_j w^(ij); coset form with the field generator; ifft; coset_ifft), or one algebraic identity (ifft(fft(a)) = a, coset_ifft(coset_fft(a)) = a, sum_i L_i(tau) f(w^i) = f(tau) with tau inside and outside the domain, barycentric vs direct evaluation outside and at a point of the domain, vanishing polynomial closed forms). Domain sizes 2^0..2^14 (both sides of the 2^12 parallel threshold), input lengths shorter than, equal to and (up to 2^12) longer than the domain, vectors with zeros / trailing zeros / unit vectors. Non-trivial = non-canonical environment or a definitional check; distinct = hash of (input vector, domain, kernel, environment or index)."
+
+
 def c17_coverage(agg):
     want = int(agg["notes"].get("enum_runs", "0") or 0)
     got = agg["probes"].get("enumeration_chunks", 0)
@@ -81,6 +84,13 @@ PROPS = {
         "budget_s": {"quick": 500, "thorough": 3000},
         "rule": "one evaluation = one faulted byte string fed to a checked decoder (Prover::try_from_bytes incl. the raw commit key, Verifier::try_from_bytes, Proof::from_slice, PublicParameters::from_slice, Compiler::compile_with_compressed) in a build with debug assertions and overflow checks on. Enumerated completely (exhaustive sub-spaces): every single-bit flip of the minimal deployment's verifier key, proof and compressed circuit, of the prover key's header and the first and last 512 bytes of each of its sections (label, prover key, raw commit key, verifier key), and of the parameters' opening key and first/last four points. Explored by seeded search: the disk-fault catalogue (multi-bit flips, short / torn / lost / misdirected writes, zeroed blocks, duplication, garbage, edits of every length and count field to 0,1,v+-1,2^31,2^32,2^63,u64::MAX,..., raw-point edits: flag byte, non-reduced limbs, infinity flag with coordinates, off-curve, swapped coordinates; non-canonical scalars; compressed-G1 flag games; structure-aware compressed-circuit edits) on generated deployments. Oracle: no panic (abort / hang caught by the supervisor through pre-case log lines), peak allocation <= 16 x input + 1 MiB (compressed circuits: bounded by the parameters' capacity), accepted values re-encode to bytes that pass independent strict parsers (canonical scalars, valid compressed points, raw points with flag in {0,1}, reduced limbs, on curve, prime-order subgroup, non-identity opening key) and can be used (prove / verify / compile) without panicking. Non-trivial = the bytes differ from the stored ones; distinct = hash of the faulted bytes.",
         "assumptions": ["no claim is made about what a semantically altered but well-formed key proves or accepts (the formats carry no integrity tag)", "in the quick tier one quarter of the accepted single-bit neighbours of the prover key are additionally used for proving, in the thorough tier all of them"],
+    },
+    "C19": {
+        "level": "exploration",
+        "runs": {"quick": 1600, "thorough": 40000},
+        "budget_s": {"quick": 400, "thorough": 3000},
+        "rule": C19_RULE,
+        "assumptions": ["claimed for the kernels with a parallel path (FFT family, Lagrange coefficients, barycentric evaluation, vanishing-polynomial closed forms) reached through the verif::kernels wrappers; polynomial add/sub/mul/ruffini and batch_inversion have no parallel path and no other seam (pure algebra) and are not decided here"],
     },
     "C18": {
         "level": "exploration",
